@@ -120,6 +120,15 @@ def predC14 (req obs : List String) : Option Bool :=
     | some u, [r] => pure (r.toNat? == some (ceilDiv b u))
     | none, ["reject"] => pure true
     | _, _ => pure false
+  -- the time tests through the whole program (the request of C15's `age-e2e`): trichotomy only —
+  -- for every file exactly one of the three forms holds (what the periods are is C15)
+  | "age-e2e" :: _ =>
+    match obsForms obs with
+    | some (e, m, l) =>
+      pure (e.length == m.length && m.length == l.length &&
+        (List.range e.length).all fun i =>
+          ((if e.getD i false then 1 else 0) + (if m.getD i false then 1 else 0) + (if l.getD i false then 1 else 0)) == 1)
+    | none => pure false
   | ["size-e2e", suf, n, sizes] => do
     let s ← charsOfHex suf
     let n ← n.toNat?
